@@ -3,16 +3,19 @@ import contextlib, copy, io, itertools
 import boot
 from lib import wire
 
-TABLES = ['T03']
+TABLES = ['T03', 'T03c']
 RULE = ('corpus first (shapes of past seeded changes: stranger / secure-demoted / duplicate-match sender x channel capability without '
         'explicit setting x ignoreDefaultAllow; ignored owner x ignoreOwner; channel op x ignoreChannelOp), then databases sampled '
         'from the product: sender (none / account that does not match / match / login only / secure login only = demoted / secure match / '
         'two accounts match = DuplicateHostmask; capability subset of a 14-element pool incl. owner, anti, channel, anti-channel, '
         'mixed-case and rfc1459-pair spellings; ignore) x channel entries (capability subsets, defaultAllow) x global default set x '
         'registeredUsers set x default flag x the three ignore* flags (45% non-default, ignoreDefaultAllow in about a quarter) x asked '
-        'capability (plain, anti, channel, anti-channel, case variants, hostile strings), plus a stream of the AutoMode call shape '
+        'capability (plain, anti, channel, anti-channel, case variants, hostile strings; channel NAMES with the rfc1459 case pairs '
+        '[]\\~ / {}|^ stored under one spelling -- sometimes two -- and asked under every other), plus a stream of the AutoMode call shape '
         '(ignoreDefaultAllow, unrecognised sender, channel capabilities, channels with few explicit settings).  Each case: real '
-        'ircdb.checkCapability (fresh UsersDictionary/ChannelsDictionary, real conf registry) vs extracted model; direct oracle = '
+        'ircdb.checkCapability (fresh UsersDictionary/ChannelsDictionary, real conf registry) vs extracted model, twice: on the '
+        'channel table read back from the real container, and on the table the model rebuilds itself from the setChannel calls '
+        '(str.lower + IrcDict key); direct oracle = '
         'totality, case variants, anti-symmetry on the flag triples of C03_anti_opposite_flags, and an independent decision-list spec '
         'for EVERY flag triple evaluated on the real objects.  non-trivial = distinct (db, cap, flags)')
 TRUSTED = ['user lookup (users.getUser, checkHostmask) enters this model as an input taken from the real objects; it is modelled in C04',
@@ -24,12 +27,16 @@ LEVEL_TEXT = ('Coq theorems over an executable Gallina model of the capability s
               'well-formed capabilities, capability/anti-capability give opposite answers (sets built by add; every flag triple without '
               'ignoreDefaultAllow, and with it for unrecognised senders and plain capabilities; refuted by a witness for the rest), owner '
               'rule, case-insensitivity, refinement of a readable decision-list spec for all three ignore* flags and both members of a '
-              '(capability, anti-capability) pair.  Tie: regenerated fold table / whitespace set / chantypes / '
+              '(capability, anti-capability) pair; the answer depends neither on the spelling of the asked channel name nor on the one it '
+              'was stored under (channel table = IrcDict over str.lower, refuted for a table keyed by str.lower alone).  Tie: regenerated '
+              'fold table / whitespace set / chantypes / fail-closed pin of ChannelsDictionary.channels, getChannel, setChannel, IrcDict.key / '
               'defaultOff + differential run of the extracted model against the real function on sampled databases.')
 LEVEL_NOTE = ('Trusted: Coq kernel, gen_tables.py, extraction + driver, harness; user lookup is an input (C04); conf registry plumbing is '
               'exercised, not modelled; non-ASCII str.lower() outside the model.')
 TECHNIQUE = 'Coq proof (case analysis + set invariant by induction over add) + regenerated tables + extracted-model differential correspondence'
 
+SPELLINGS = {'#dev[ops]': ['#dev[ops]', '#DEV{OPS}', '#Dev[ops}', '#dev{ops}', '#DEV[OPS]'],
+             '#a\\b~': ['#a\\b~', '#A|B^', '#a|b~', '#A\\B^']}
 H_MATCH = 'nick!user@host.example'
 H_OTHER = 'other!u@elsewhere'
 
@@ -41,12 +48,15 @@ def _mods():
 
 
 USER_POOL = ['owner', 'admin', 'foo', '-foo', 'Foo', 'x[y]', '-x{y}', '#chan,op', '#chan,foo', '#chan,-foo', '#Chan,-op',
-             '#other,op', 'trusted', '-bar']
+             '#other,op', 'trusted', '-bar', '#dev{ops},op', '#DEV[OPS],-foo']
 CHAN_POOL = ['foo', '-foo', 'op', 'bar', '-x{y}', 'baz', '#other,-foo']
 DEF_POOL = ['-owner', '-admin', 'foo', '-foo', '-bar', 'x[y]', 'baz', '-trusted']
 ASK = ['foo', '-foo', 'FOO', 'owner', '-owner', 'admin', 'bar', '-bar', 'x{y}', '-X[Y]', '#chan,foo', '#chan,-foo', '#CHAN,Foo',
        '#chan,op', '#chan,-op', '#other,foo', '#new,voice', '#new,-voice', '#chan,bar', 'baz', '-baz', 'qux', '-qux', '#chan,qux',
-       'trusted', '#chan,x[y]', '#other,-foo', 'a,b', '#c,', '-#chan,foo', '#chan,#other,foo']
+       'trusted', '#chan,x[y]', '#other,-foo', 'a,b', '#c,', '-#chan,foo', '#chan,#other,foo',
+       # channel names with the rfc1459 case pairs []\\~ / {}|^ , asked in every spelling
+       '#dev[ops],foo', '#DEV{OPS},foo', '#dev{ops},-foo', '#Dev[ops},bar', '#DEV[OPS],qux', '#dev{ops},-qux', '#dev[ops],op',
+       '#a\\b~,foo', '#A|B^,-foo', '#a|b~,baz']
 HOSTILE = ['', ' ', 'a b', ' a', 'a ', '-', '--x', '#c,-', '#c, x', ' ', '#c,a b', ',', '#,x', '-,', 'owner ', '- owner',
            '#' + 'c' * 49 + ',x', '#' + 'c' * 50 + ',x', '#c\x07,x', '&c,x', '!c,-x', '+c,x', 'é', '-é', '#é,É']
 
@@ -77,6 +87,12 @@ def gen_db(rng, kind=None):
     for name in ['#chan', '#other']:
         if rng.random() < 0.6:
             chans[name] = {'caps': [c for c in CHAN_POOL if rng.random() < 0.3], 'default': rng.random() < 0.7}
+    # channels whose names contain the rfc1459 case pairs, stored under any spelling (sometimes under two: the later
+    # setChannel replaces the earlier entry), mostly with non-default settings so that finding the entry matters
+    for base, sp in SPELLINGS.items():
+        if rng.random() < 0.45:
+            for name in rng.sample(sp, 2 if rng.random() < 0.15 else 1):
+                chans[name] = {'caps': [c for c in CHAN_POOL if rng.random() < 0.35], 'default': rng.random() < 0.4}
     return {'user': None if kind == 'none' else {'caps': caps, 'ignore': rng.random() < 0.15, 'kind': kind},
             'chans': chans,
             'defaults': [c for c in DEF_POOL if rng.random() < 0.3],
@@ -245,7 +261,7 @@ def variants(c):
     return [v for v in (sw, tr) if v != c]
 
 
-def run_case(ctx, mods, g, cap, fl, mout, kind, asked_h=H_MATCH):
+def run_case(ctx, mods, g, cap, fl, mout, kind, asked_h=H_MATCH, mout3=None):
     ircdb, conf, ircutils = mods
     inp = {'db': g, 'cap': cap, 'flags': fl, 'hostmask': asked_h}
     ctx.case(kind, inp)
@@ -259,6 +275,10 @@ def run_case(ctx, mods, g, cap, fl, mout, kind, asked_h=H_MATCH):
         mr = wire.r(mout, bool)
         if mr != ir:
             ctx.disagree(inp, mr, ir, 'checkCapability')
+    if mout3 is not None:
+        mr3 = wire.r(mout3, bool)
+        if mr3 != ir:
+            ctx.disagree(inp, mr3, ir, 'checkCapability, channel table rebuilt by the model from the setChannel calls')
     if not wf_cap(cap):
         return
     # totality on well-formed capabilities
@@ -285,6 +305,19 @@ def run_case(ctx, mods, g, cap, fl, mout, kind, asked_h=H_MATCH):
     if want != ir[1]:
         ctx.fail(inp, 'precedence spec says %r, checkCapability says %r (flags ignoreOwner=%r ignoreChannelOp=%r '
                       'ignoreDefaultAllow=%r)' % (want, ir[1], fl[0], fl[1], fl[2]))
+
+
+def chan_sets(ircdb, g):
+    """the setChannel(name, channel) calls that build the channel table, names as spelled: the model replays them through its
+    own setChannel (str.lower, then the IrcDict key function)"""
+    out = []
+    for name, c in g['chans'].items():
+        ch = ircdb.IrcChannel()
+        for cap in c['caps']:
+            ch.addCapability(cap)
+        ch.defaultAllow = c['default']
+        out.append([name, [sorted(set.__iter__(ch.capabilities)), ch.defaultAllow]])
+    return out
 
 
 def snapshot_wire(mods, g, h):
@@ -334,6 +367,17 @@ def corpus():
         for caps in (['#chan,op'], ['#chan,-op'], ['#Chan,op', '#chan,-foo']):
             for cap in ('#chan,foo', '#chan,-foo', '#other,foo'):
                 out.append((_db('match', caps), cap, fl))
+    # seeded change C03_7 (ChannelsDictionary.channels a plain dict keyed by str.lower()): a channel whose name contains one of
+    # the rfc1459 case pairs, a non-default setting, asked under another spelling of the same name
+    for stored in ('#dev[ops]', '#DEV{OPS}', '#Dev[ops}'):
+        for cc, dflt in ((['-foo'], True), (['foo'], False), ([], False)):
+            for kind, caps in (('none', ()), ('match', ()), ('match', ('#dev{ops},op',)), ('secure-authonly', ())):
+                for cap in ('#dev[ops],foo', '#DEV{OPS},foo', '#dev{ops},-foo', '#DEV[OPS],bar'):
+                    out.append((_db(kind, caps, chans={stored: {'caps': cc, 'default': dflt}}), cap, [False, False, False]))
+    out.append((_db('none', chans={'#a\\b~': {'caps': ['-foo'], 'default': False}}), '#A|B^,foo', [False, False, False]))
+    # the later of two stores under spellings of one name wins
+    out.append((_db('none', chans={'#dev[ops]': {'caps': ['-foo'], 'default': True}, '#DEV{OPS}': {'caps': ['foo'], 'default': False}}),
+                '#dev[ops},foo', [False, False, False]))
     # finding F21's witness shape stays in the stream
     out.append((_db('none', chans={'#chan': {'caps': ['#other,-foo'], 'default': True}}), '#chan,#other,foo', [False, False, False]))
     return out
@@ -363,10 +407,14 @@ def run(ctx):
                     g['chans'][name]['caps'] = [c for c in g['chans'][name]['caps'] if c in ('op', 'bar', '-x{y}')]
             for cap in rng.sample(CHAN_ASK, 4) + rng.sample(ASK, 1):
                 cases.append((g, cap, [rng.random() < 0.5, rng.random() < 0.5, True], 'automode-unknown'))
-        wcases = [[0, [snapshot_wire(mods, g, H_MATCH), cap, fl]] for g, cap, fl, _ in cases]
-        outs = ctx.model(wcases)
-        for (g, cap, fl, kind), mo in zip(cases, outs):
-            run_case(ctx, mods, g, cap, fl, mo, kind + ('-hostile' if not wf_cap(cap) or cap in HOSTILE else ''))
+        snaps = [snapshot_wire(mods, g, H_MATCH) for g, _, _, _ in cases]
+        outs = ctx.model([[0, [sn, cap, fl]] for sn, (g, cap, fl, _) in zip(snaps, cases)])
+        # the same cases, the channel table not read back from the container but rebuilt by the model's own setChannel
+        outs3 = ctx.model([[3, [sn[:2] + [chan_sets(ircdb, g)] + sn[3:], cap, fl]] for sn, (g, cap, fl, _) in zip(snaps, cases)])
+        for (g, cap, fl, kind), mo, mo3 in zip(cases, outs, outs3):
+            special = any(ch in cap for sp in SPELLINGS.values() for ch in sp)
+            run_case(ctx, mods, g, cap, fl, mo, kind + ('-hostile' if not wf_cap(cap) or cap in HOSTILE else '')
+                     + ('-pairchan' if special else ''), mout3=mo3)
         # the string algebra on its own
         words = ASK + HOSTILE + USER_POOL + [a + b for a in ['', '-', '#c,', '#c,-', '#C,'] for b in ['x', 'X y', '', '-', 'é', 'x,y', ' x']]
         outs = ctx.model([[1, w] for w in words])
